@@ -3,7 +3,8 @@
 ROOT=$(cd "$(dirname "$0")/.." && pwd)
 cd "$ROOT" || exit 2
 ./setup.sh > /tmp/diag_setup.log 2>&1 || { echo "setup failed"; exit 2; }
-WT=/tmp/repo_diag
+WT=${DIAG_WT:-/tmp/repo_diag}
+LOG=/tmp/diag_run_$(basename $WT).log
 git -C /repo worktree remove --force $WT 2>/dev/null; git -C /repo worktree prune
 git -C /repo worktree add -q --detach $WT HEAD || exit 2
 export VERIF_REPO=$WT
@@ -13,8 +14,8 @@ for D in "$@"; do
     dd=$(dirname $d); id=$(echo ${dd#$ROOT/$D/} | tr '/' '-'); p=${id%%-*}
     git -C $WT reset -q --hard HEAD
     git -C $WT apply $d || { echo -e "$id\tAPPLY-FAILED" >> $OUT; continue; }
-    ./run check $p > /tmp/diag_run.log 2>&1; rc=$?
-    echo -e "$id\t$p=$rc\t$(grep -E '^(VIOLATION|UNDECIDED)' /tmp/diag_run.log | head -2 | cut -c1-160 | tr '\n' '|')" | tee -a $OUT
+    ./run check $p > $LOG 2>&1; rc=$?
+    echo -e "$id\t$p=$rc\t$(grep -E '^(VIOLATION|UNDECIDED)' $LOG | head -2 | cut -c1-160 | tr '\n' '|')" | tee -a $OUT
     cp $OUT /tmp/diag_$D.tsv
   done
 done
